@@ -72,9 +72,11 @@ class Software:
             oversion, opatch = mx.group(1), mx.group(2).strip()
         else:
             oversion, opatch = other, ''
-        if self.version < oversion:
+        # Compare dotted decimal versions numerically, component by component, so that "10.0" is newer than "9.9".
+        sversion_key, oversion_key = Software.version_key(self.version), Software.version_key(oversion)
+        if sversion_key < oversion_key:
             return -1
-        elif self.version > oversion:
+        elif sversion_key > oversion_key:
             return 1
         spatch = self.patch or ''
         if self.product == Product.DropbearSSH:
@@ -98,6 +100,13 @@ class Software:
         elif spatch > opatch:
             return 1
         return 0
+
+    @staticmethod
+    def version_key(version: str) -> Tuple[Tuple[int, ...], str]:
+        '''Returns a sort key for a version string.  Dotted decimal versions are ordered by their numeric components; anything else falls back to plain string order.'''
+        if re.match(r'^\d+(\.\d+)*$', version):
+            return tuple(int(x) for x in version.split('.')), ''
+        return (), version
 
     def between_versions(self, vfrom: str, vtill: str) -> bool:
         if bool(vfrom) and self.compare_version(vfrom) < 0:
